@@ -539,3 +539,34 @@ pub fn pristine_refs(ops: &[Op], jobs: usize) -> Vec<RefEntry> {
     let r = results.into_inner().unwrap();
     r.into_iter().map(|e| e.unwrap()).collect()
 }
+
+static RESERVED_FDS: Mutex<Vec<std::fs::File>> = Mutex::new(Vec::new());
+
+/// Keep `n` descriptors open on /dev/null (see `work_main`).
+pub fn reserve_fds(n: usize) {
+    let mut g = RESERVED_FDS.lock().unwrap_or_else(|e| e.into_inner());
+    while g.len() < n {
+        match std::fs::File::open("/dev/null") {
+            Ok(f) => g.push(f),
+            Err(_) => break,
+        }
+    }
+}
+
+pub fn release_reserved_fds() {
+    RESERVED_FDS.lock().unwrap_or_else(|e| e.into_inner()).clear();
+}
+
+extern "C" {
+    fn getrlimit(resource: i32, rlim: *mut [u64; 2]) -> i32;
+}
+
+/// Soft RLIMIT_NOFILE of this process, as text.
+pub fn fd_limit() -> String {
+    let mut r = [0u64; 2];
+    if unsafe { getrlimit(7, &mut r) } == 0 {
+        r[0].to_string()
+    } else {
+        "unknown".into()
+    }
+}
